@@ -1,7 +1,9 @@
 """Engine B for C20: saved ranking functions and metadata reload to behaviourally identical objects.
 
 Judged against the wording of the property:
-  * the reference ("what the object means") is a never-saved twin built from the same description; everything a
+  * the reference ("what the object means") is a never-saved twin built from the same description (for
+    c-representations, whose constructor is not deterministic: the definition of the induced ranking applied to the
+    vector the object under test carries, by truth tables); everything a
     loaded object shows (signature, ranks known at load, ranks after lazy continuation and completion, impacts,
     metadata, acceptance verdicts) is compared with the original as it was right before the save and with the twin;
   * load happens in the same process and in a fresh interpreter (this very file run as a script with PYTHONPATH=/repo,
@@ -184,11 +186,58 @@ def _rank(o, ranked):
 
 
 def _ref(spec, queries):
-    """the never-saved twin, completed"""
+    """what the object means.  custom / System Z: the never-saved twin, completed (the partition is a function of the
+    base).  c-representation: the constructor picks one of several Pareto-minimal vectors and is NOT deterministic,
+    so a twin may legitimately carry another vector; the reference is then the definition applied to the vector the
+    object under test carries (see _ref_crep / _make)"""
     t = _build(spec)
     f = _facets(t)
+    if spec["kind"] == "random_min_c_rep":
+        return _ref_crep(spec, queries, f["impacts"], f)
     c = _continue(t, [], queries)
     return {"facets": f, "ranks": c["completed"], "accept": c["accept"], "impacts": f["impacts"]}
+
+
+def _falsified(spec):
+    """key -> set of worlds falsifying the conditional (truth tables)"""
+    from oracle.core import ev
+
+    sig = spec["signature"]
+    out = {}
+    for k, b, a in spec["conditionals"]:
+        c = _mk(b, a)
+        out[int(k)] = {w for w in _worlds(sig) if ev(c.antecedence, _wd(sig, w)) and not ev(c.consequence, _wd(sig, w))}
+    return out
+
+
+def _wd(sig, w):
+    return {s: w[i] == "1" for i, s in enumerate(sig)}
+
+
+def _ref_crep(spec, queries, impacts, facets):
+    """definition: rank(w) = sum of the impacts of the conditionals w falsifies (impact of key k at position k-1);
+    (B|A) accepted iff min rank(A and B) < min rank(A and not B), min over no world = infinity"""
+    from oracle.core import ev
+
+    sig = spec["signature"]
+    fal = _falsified(spec)
+    ranks = {w: sum(impacts[k - 1] for k in fal if w in fal[k]) for w in _worlds(sig)}
+    accept = []
+    for b, a in queries:
+        q = _mk(b, a)
+        v = [ranks[w] for w in ranks if ev(q.antecedence, _wd(sig, w)) and ev(q.consequence, _wd(sig, w))]
+        n = [ranks[w] for w in ranks if ev(q.antecedence, _wd(sig, w)) and not ev(q.consequence, _wd(sig, w))]
+        accept.append(False if not v else (True if not n else min(v) < min(n)))
+    return {"facets": facets, "ranks": ranks, "accept": accept, "impacts": list(impacts)}
+
+
+def _make(spec, ranked, queries, ref):
+    """build the object under test, rank the subset; -> (object, the reference that applies to THIS object)"""
+    o = _build(spec)
+    _rank(o, ranked)
+    if spec["kind"] == "random_min_c_rep" and list(o._impacts) != ref["impacts"]:
+        ref = _ref_crep(spec, queries, list(o._impacts), ref["facets"])
+    return o, ref
 
 
 def _order(spec, ranked, salt=0):
@@ -253,13 +302,10 @@ def _judge_loaded(fl, f0, viol, what, keys=LOADED_KEYS):
 # channels (each returns a list of (kind, expected, observed); fresh ones return a job + expectation)
 # ---------------------------------------------------------------------------
 def _prepare_saved(spec, ranked, queries, params, tmp, ref, viol, what, fname):
-    """build, rank the subset, save; check the original is undisturbed.  -> (object, facets before, path) or None"""
-    o = _build(spec)
-    _rank(o, ranked)
+    """build, rank the subset, save; check the original is undisturbed.  -> (object, facets before, path, ref) or None"""
+    o, ref = _make(spec, ranked, queries, ref)
     f0 = _facets(o)
     solvers0 = _solver_objs(o)
-    if spec["kind"] == "random_min_c_rep" and f0["impacts"] != ref["impacts"]:
-        raise RuntimeError(f"c20: constructor not deterministic, cannot use a twin: {f0['impacts']} vs {ref['impacts']}")
     path = os.path.join(tmp, fname)
     target = pathlib.Path(path) if params.get("pathlib") else path
     kw = {} if params.get("protocol") is None else {"protocol": params["protocol"]}
@@ -269,7 +315,7 @@ def _prepare_saved(spec, ranked, queries, params, tmp, ref, viol, what, fname):
         viol.append((f"{what}:save-exception", "save_ocf succeeds", _exc(e)))
         return None
     _check_same_object(o, f0, solvers0, viol, f"{what}:original-after-save")
-    return o, f0, path
+    return o, f0, path, ref
 
 
 def chan_ocf_same(spec, ranked, queries, params, tmp, ref):
@@ -279,7 +325,7 @@ def chan_ocf_same(spec, ranked, queries, params, tmp, ref):
     got = _prepare_saved(spec, ranked, queries, params, tmp, ref, viol, "same", "same.ocf")
     if got is None:
         return viol
-    o, f0, path = got
+    o, f0, path, ref = got
     order = params["order"]
     try:
         l = PreOCF.load_ocf(pathlib.Path(path) if params.get("pathlib") else path, trusted=True)
@@ -301,7 +347,7 @@ def chan_ocf_resave(spec, ranked, queries, params, tmp, ref):
     got = _prepare_saved(spec, ranked, queries, params, tmp, ref, viol, "resave", "r1.ocf")
     if got is None:
         return viol
-    o, f0, path = got
+    o, f0, path, ref = got
     order = params["order"]
     try:
         l1 = PreOCF.load_ocf(path, trusted=True)
@@ -331,9 +377,9 @@ def prep_ocf_fresh(spec, ranked, queries, params, tmp, ref, tag):
     got = _prepare_saved(spec, ranked, queries, params, tmp, ref, viol, "fresh", f"fresh_{tag}.ocf")
     if got is None:
         return viol, None, None
-    o, f0, path = got
+    o, f0, path, ref = got
     job = {"type": "ocf", "path": path, "order": params["order"], "queries": queries}
-    return viol, job, {"f0": _jsonable(f0), "keys": LOADED_KEYS}
+    return viol, job, {"f0": _jsonable(f0), "keys": LOADED_KEYS, "ref": ref}
 
 
 def judge_fresh(job, expect, result, ref):
@@ -347,7 +393,7 @@ def judge_fresh(job, expect, result, ref):
     if "cont_exception" in result:
         viol.append(("fresh:loaded:continue-exception", "lazy continuation and queries work", result["cont_exception"]))
         return viol
-    _judge_cont(result["cont"], job["order"], ref, viol, "fresh:loaded")
+    _judge_cont(result["cont"], job["order"], expect.get("ref") or ref, viol, "fresh:loaded")
     return viol
 
 
@@ -371,12 +417,19 @@ def run_fresh(jobs, tmp):
 
 
 # ----- impacts ---------------------------------------------------------------
-def _crep_parts(spec, ranked, ref):
-    o = _build(spec)
-    _rank(o, ranked)
-    if o._impacts != ref["impacts"]:
-        raise RuntimeError("c20: constructor not deterministic, cannot use a twin")
-    return o, _base(spec["signature"], spec["conditionals"])
+def _crep_parts(spec, ranked, queries, ref):
+    o, ref = _make(spec, ranked, queries, ref)
+    return o, _base(spec["signature"], spec["conditionals"]), ref
+
+
+def _second_object(spec, ranked_target, X):
+    """another object of the same base to read a vector into; it is pre-ranked only when its own vector is the one
+    being read (ranks cached under a different vector are outside this property) -> (object, worlds already ranked)"""
+    n = _build(spec)
+    if list(n._impacts) != list(X):
+        return n, set()
+    _rank(n, ranked_target or [])
+    return n, set(ranked_target or [])
 
 
 def chan_impacts_file(spec, ranked, queries, params, tmp, ref):
@@ -384,7 +437,7 @@ def chan_impacts_file(spec, ranked, queries, params, tmp, ref):
     from inference.preocf import RandomMinCRepPreOCF
 
     viol = []
-    o, bb = _crep_parts(spec, ranked, ref)
+    o, bb, ref = _crep_parts(spec, ranked, queries, ref)
     f0 = _facets(o)
     solvers0 = _solver_objs(o)
     X = list(o._impacts)
@@ -399,19 +452,18 @@ def chan_impacts_file(spec, ranked, queries, params, tmp, ref):
         viol.append(("impacts:export-exception", "export_impacts succeeds", _exc(e)))
         return viol
     _check_same_object(o, f0, solvers0, viol, "impacts:exporter-after-export")
+    known = set()
     try:
         if params["mode"] == "init":
             n = RandomMinCRepPreOCF.init_with_impacts(bb, target)
         else:
-            n = _build(spec)
-            _rank(n, params.get("ranked_target") or [])
+            n, known = _second_object(spec, params.get("ranked_target"), X)
             n.import_impacts(target)
     except Exception as e:  # noqa
         viol.append(("impacts:import-exception", "the exported file can be read back", _exc(e)))
         return viol
     if _canon(n._impacts) != _canon(X):
         viol.append(("impacts:vector-differs", X, _jsonable(n._impacts)))
-    known = set(params.get("ranked_target") or []) if params["mode"] != "init" else set()
     _check_continue(n, [w for w in _order(spec, [], 1) if w not in known], queries, ref, viol, "impacts:reader")
     return viol
 
@@ -420,7 +472,7 @@ def chan_impacts_list(spec, ranked, queries, params, tmp, ref):
     from inference.preocf import RandomMinCRepPreOCF
 
     viol = []
-    o, bb = _crep_parts(spec, ranked, ref)
+    o, bb, ref = _crep_parts(spec, ranked, queries, ref)
     f0 = _facets(o)
     solvers0 = _solver_objs(o)
     try:
@@ -431,12 +483,12 @@ def chan_impacts_list(spec, ranked, queries, params, tmp, ref):
     if _canon(X) != _canon(ref["impacts"]):
         viol.append(("impacts-list:vector-differs", ref["impacts"], _jsonable(X)))
     keep = list(X)
+    known = set()
     try:
         if params["mode"] == "init":
             n = RandomMinCRepPreOCF.init_with_impacts_list(bb, X)
         else:
-            n = _build(spec)
-            _rank(n, params.get("ranked_target") or [])
+            n, known = _second_object(spec, params.get("ranked_target"), X)
             n.load_impacts(X)
     except Exception as e:  # noqa
         viol.append(("impacts-list:load-exception", "the saved vector can be loaded", _exc(e)))
@@ -446,7 +498,6 @@ def chan_impacts_list(spec, ranked, queries, params, tmp, ref):
     if _canon(n._impacts) != _canon(keep) or _canon(o._impacts) != _canon(keep):
         viol.append(("impacts-list:vector-aliased", keep, [_jsonable(o._impacts), _jsonable(n._impacts)]))
     _check_same_object(o, f0, solvers0, viol, "impacts-list:source-after-save")
-    known = set(params.get("ranked_target") or []) if params["mode"] != "init" else set()
     _check_continue(n, [w for w in _order(spec, [], 2) if w not in known], queries, ref, viol, "impacts-list:reader")
     return viol
 
@@ -479,7 +530,7 @@ def chan_impacts_invalid(spec, ranked, queries, params, tmp, ref):
     from inference.preocf import RandomMinCRepPreOCF
 
     viol = []
-    o, bb = _crep_parts(spec, ranked, ref)
+    o, bb, ref = _crep_parts(spec, ranked, queries, ref)
     f0 = _facets(o)
     solvers0 = _solver_objs(o)
     bad = _bad_vector(params["bad"], list(o._impacts))
@@ -517,7 +568,7 @@ def chan_impacts_invalid(spec, ranked, queries, params, tmp, ref):
 
 def prep_impacts_fresh(spec, ranked, queries, params, tmp, ref, tag):
     viol = []
-    o, bb = _crep_parts(spec, ranked, ref)
+    o, bb, ref = _crep_parts(spec, ranked, queries, ref)
     path = os.path.join(tmp, f"impacts_fresh_{tag}" + params["suffix"])
     try:
         o.export_impacts(path, fmt=params["fmt"])
@@ -526,7 +577,7 @@ def prep_impacts_fresh(spec, ranked, queries, params, tmp, ref, tag):
         return viol, None, None
     job = {"type": "impacts", "path": path, "signature": spec["signature"], "conditionals": spec["conditionals"], "order": _order(spec, [], 3), "queries": queries}
     f0 = {"impacts": list(ref["impacts"]), "signature": list(spec["signature"]), "cls": "RandomMinCRepPreOCF", "ranks": {w: None for w in _worlds(spec["signature"])}}
-    return viol, job, {"f0": f0, "keys": ("cls", "signature", "ranks", "impacts")}
+    return viol, job, {"f0": f0, "keys": ("cls", "signature", "ranks", "impacts"), "ref": ref}
 
 
 # ----- metadata --------------------------------------------------------------
@@ -555,8 +606,7 @@ def chan_meta_file(spec, ranked, queries, params, tmp, ref):
     from inference.preocf import PreOCF
 
     viol = []
-    o = _build(spec)
-    _rank(o, ranked)
+    o, ref = _make(spec, ranked, queries, ref)
     for k, v in (params.get("extra_meta") or {}).items():
         o.save_meta(k, json.loads(json.dumps(v)))
     if not _json_representable(o.metadata):
@@ -606,8 +656,7 @@ def chan_fail_save(spec, ranked, queries, params, tmp, ref):
 
     viol = []
     how = params["how"]
-    o = _build(spec)
-    _rank(o, ranked)
+    o, ref = _make(spec, ranked, queries, ref)
     fh = None
     kw = {}
     target = os.path.join(tmp, "fail.ocf")
@@ -684,7 +733,7 @@ def chan_fail_save(spec, ranked, queries, params, tmp, ref):
     return viol, raised
 
 
-PROBES = ("negative", "float", "str-elem", "len+1", "bool")
+PROBES = ("negative", "float", "str-elem", "len+1", "bool", "other-vector-after-ranking", "twin-vector")
 
 
 def chan_probe_impacts(spec, ranked, queries, params, tmp, ref):
@@ -693,9 +742,18 @@ def chan_probe_impacts(spec, ranked, queries, params, tmp, ref):
     does the list interface take bools"""
     from inference.preocf import RandomMinCRepPreOCF
 
-    o, bb = _crep_parts(spec, ranked, ref)
+    twin_vector = list(ref["impacts"])
+    o, bb, ref = _crep_parts(spec, ranked, queries, ref)
     X = list(o._impacts)
     how = params["how"]
+    if how == "twin-vector":
+        return [], "same vector as the twin" if X == twin_vector else "constructor chose another vector than the twin"
+    if how == "other-vector-after-ranking":
+        before = dict(o.compute_all_ranks())
+        if not any(before.values()):
+            return [], "n/a (all ranks 0)"
+        o.load_impacts([2 * x for x in X])
+        return [], "ranks kept from the previous vector" if dict(o.compute_all_ranks()) == before else "ranks follow the new vector"
     try:
         if how == "bool":
             RandomMinCRepPreOCF.init_with_impacts_list(bb, [bool(x) for x in X])
@@ -705,9 +763,9 @@ def chan_probe_impacts(spec, ranked, queries, params, tmp, ref):
             with open(path, "w") as fd:
                 json.dump(data, fd)
             o.import_impacts(path)
-        return [], None
+        return [], "accepted"
     except Exception as e:  # noqa
-        return [], _exc(e)
+        return [], "refused"
 
 
 FAIL_META = ("tuple-key", "circular", "lambda-json", "set-json", "lambda-pickle", "nodir", "isdir", "bad-fmt")
@@ -716,8 +774,7 @@ FAIL_META = ("tuple-key", "circular", "lambda-json", "set-json", "lambda-pickle"
 def chan_fail_meta(spec, ranked, queries, params, tmp, ref):
     viol = []
     how = params["how"]
-    o = _build(spec)
-    _rank(o, ranked)
+    o, ref = _make(spec, ranked, queries, ref)
     path = os.path.join(tmp, "failmeta.json")
     fmt = None
     must_raise = True
@@ -874,6 +931,12 @@ def _gen_states(rng, spec, tier):
 # one object: all its states and channels
 # ---------------------------------------------------------------------------
 def _content(spec, ref):
+    if spec["kind"] == "random_min_c_rep":
+        # the vector is the constructor's (non-deterministic) choice: the content is the base up to semantics
+        fal = _falsified(spec)
+        sem = [[k, sorted(fal[k])] for k in sorted(fal)]
+        s = _canon([spec["kind"], spec["signature"], sem, spec.get("metadata") or {}])
+        return hashlib.sha1(s.encode()).hexdigest()[:12]
     s = _canon([spec["kind"], spec["signature"], ref["ranks"], ref["impacts"], ref["accept"], spec.get("metadata") or {}, ref["facets"]["partition"]])
     return hashlib.sha1(s.encode()).hexdigest()[:12]
 
@@ -1015,7 +1078,7 @@ def _obj_case(item):
     with tempfile.TemporaryDirectory(prefix="c20_") as tmp:
         for channel, ranked, params, viols, note in _execute(spec, queries, _plan(spec, states, rng, tier), tmp, ref):
             if channel in FAILING:
-                key = f"{channel}[{params['how']}]:" + ("raised" if note else "no error")
+                key = f"{channel}[{params['how']}]:" + (note if channel.startswith("probe-") else ("raised" if note else "no error"))
                 out["notes"][key] = out["notes"].get(key, 0) + 1
             if channel.startswith("probe-"):
                 continue  # tallied only, neither judged nor counted
@@ -1067,7 +1130,8 @@ def run(tier, seed):
         f"{len(FAIL_SAVE)} failure points of save_ocf and {len(FAIL_META)} of save_metadata"
     )
     tot["rule"] = (
-        "objects from random.Random(seed); a case is (kind, hash of completed ranks+impacts+verdicts+partition+user metadata, set of worlds ranked "
+        "objects from random.Random(seed); a case is (kind, hash of completed ranks+impacts+verdicts+partition+user metadata [c-representations: "
+        "the base up to semantics, since the constructor's choice of vector is not deterministic], set of worlds ranked "
         "before the save, channel with its parameters); counted as non-trivial only if at least one rank is not yet computed at save time or "
         "the impacts / user metadata payload is non-empty"
     )
